@@ -104,6 +104,14 @@ func TraverseStringsFunc[T any](v T, fn func(v string) (string, error)) (T, erro
 			copy.Set(copyValue)
 
 		case reflect.Struct:
+			// Structs with unexported fields (e.g. time.Time) cannot be rebuilt
+			// field by field, so they are copied by value
+			for i := range v.NumField() {
+				if !copy.Field(i).CanSet() {
+					copy.Set(v)
+					return nil
+				}
+			}
 			// Loop over each field and call traverseFunc recursively
 			for i := range v.NumField() {
 				if err := traverseFunc(copy.Field(i), v.Field(i)); err != nil {
